@@ -140,11 +140,11 @@ Proof. unfold fold_acct. apply fold_left_app. Qed.
 
 Lemma upds_rounds k : forall ds base, rounds_inc (upds k base ds) base.
 Proof.
-  induction ds as [|d ds IH]; intros base; cbn [upds]; [trivial|].
+  induction ds as [|d ds IH]; intros base; cbn [upds]; [exact I|].
   destruct (aget k d).
   - cbn [rounds_inc]. split; [lia|apply IH].
   - specialize (IH (base + 1)). revert IH. generalize (upds k (base + 1) ds).
-    intros l. destruct l as [|[a r] l]; cbn [rounds_inc]; [trivial|]. intros [H1 H2]. split; [lia|exact H2].
+    intros l. destruct l as [|[a r] l]; cbn [rounds_inc]; [intros _; exact I|]. intros [H1 H2]. split; [lia|exact H2].
 Qed.
 
 Lemma upds_in k : forall ds base a r, In (a, r) (upds k base ds) -> base < r /\ r <= base + N.of_nat (length ds).
@@ -269,7 +269,7 @@ Proof.
     split; [intros ? ? []|constructor].
   - inversion Hnd as [|? ? Hnin Hnd']; subst.
     destruct (process unit (old_acct k rows) (upds k base ds) []) as [w|] eqn:Ep; [|discriminate].
-    set (rows1 := match w with [] => rows | _ => tset k (w ++ tget k rows) rows end) in *.
+    match type of H with match new_round _ _ _ _ ?R with _ => _ end = _ => set (rows1 := R) in * end.
     destruct (new_round unit base ds addrs rows1) as [[rows2 upd2]|] eqn:En; [|discriminate].
     inversion H; subst rows' upd. clear H.
     assert (Hnr1 : NoDup (keys rows1)) by (unfold rows1; destruct w; [exact Hnr|apply NoDup_tset; exact Hnr]).
